@@ -129,6 +129,21 @@ def classify_body(cx, ht, body):
                     out.append(('call', path, t.get('l')))
             elif kr not in ('core',) and not kr.startswith('dasp'):
                 out.append(('foreign', path, t.get('l')))
+            elif kr == 'core':
+                # `core` itself cannot allocate, but its generic functions and blanket impls run the code of the types they
+                # are instantiated with: `iter.collect::<Vec<_>>()`, `x.into()` / `try_into()` to or from a Vec, `mem::take`
+                # of a Vec.  A heap-owning type among the type arguments, or as the type of the value returned, makes the
+                # call heap-capable.
+                # A heap-owning type passed or returned BY VALUE makes the call heap-capable (a reference to one does not:
+                # `ptr::from_mut(&mut node_data)`, `mem::swap(&mut a, &mut b)`).
+                dest = t.get('dest')
+                dty = body['locals'][dest[0]] if dest and not dest[1] else None
+                by_value = [body['locals'][a[1][0]] for a in t['args'] if a[0] in ('cp', 'mv') and not a[1][1]]
+                heap_args = [a for a in by_value if ht.owns(a)]
+                if dty is not None and ht.owns(dty):
+                    out.append(('call', '%s returning a %s' % (path, dty), t.get('l')))
+                elif heap_args:
+                    out.append(('call', '%s consuming a %s' % (path, heap_args[0]), t.get('l')))
         elif t['k'] == 'drop':
             if ht.owns(t['ty']):
                 out.append(('drop', t['ty'], t.get('l')))
